@@ -284,9 +284,13 @@ class Server(object):
   def __init__(self, hashseed, mode):
     self.hashseed = hashseed
     self.mode = mode
+    extra = None
+    if sys.pycache_prefix:
+      # bytecode of the repository under the worker's scratch directory, never in the repository
+      extra = {'PYTHONPYCACHEPREFIX': sys.pycache_prefix, 'PYTHONDONTWRITEBYTECODE': ''}
     self.p = subprocess.Popen(
         [core.PY, os.path.join(core.VERIF, 'lsim', 'refserver.py'), mode],
-        env=core.child_env(hashseed), stdin=subprocess.PIPE, stdout=subprocess.PIPE,
+        env=core.child_env(hashseed, extra), stdin=subprocess.PIPE, stdout=subprocess.PIPE,
         stderr=subprocess.PIPE, text=True, bufsize=1)
 
   def ask(self, job):
@@ -496,14 +500,35 @@ def gen_request(r, scratch, idx, kind=None):
       if stop:
         body.append('Stop%s() :- %s(x), x >= %d;' % (nm, nm, bound))
       prev = nm
-    if len(names) > 1:
+    if r.random() < 0.4:
+      # a component whose rows are records with named fields (their type is rendered as a sample
+      # literal to seed the component's tables), run until its contents stop changing
+      f = r.sample('abcdefghkmnpqrstuvwxyz', 3)
+      nm = r.choice(['TC', 'Path', 'Link'])
+      lines.append('@Recursive(%s, %d, stop: Halt%s);' % (nm, r.choice([-1, 1000, 40]), nm))
+      body.append('G(1, 2); G(2, 3); G(3, 1); G(3, 4);')
+      body.append('%s(%s: a, %s: b, %s: 1) distinct :- G(a, b);' % (nm, f[0], f[1], f[2]))
+      body.append('%s(%s: a, %s: c, %s: n + 1) distinct :- %s(%s: a, %s: b, %s: n), G(b, c), n < 6;' % (
+          nm, f[0], f[1], f[2], nm, f[0], f[1], f[2]))
+      body.append('Prev%s() Array= r -> r :- %s(..r), r ~ {%s: Num, %s: Num, %s: Num};' % (nm, nm, f[0], f[1], f[2]))
+      body.append('Halt%s() :- Array{ r -> r :- %s(..r) } == Prev%s();' % (nm, nm, nm))
+      body.append('Rec() Max= 1 :- %s(%s:, %s:);' % (nm, f[0], f[1]))
+      names = names + [None]
+    if len([n_ for n_ in names if n_]) > 1:
+      names = [n_ for n_ in names if n_]
       body.append('T(%s) :- %s;' % (', '.join('x%d' % i for i in range(len(names))),
                                     ', '.join('%s(x%d)' % (nm, i) for i, nm in enumerate(names))))
     else:
+      has_rec = None in names
+      names = [n_ for n_ in names if n_]
       body.append('T(x) :- %s(x);' % names[0])
+      if has_rec:
+        names = names + [None]
+    has_rec = None in names or any('Rec()' in b for b in body)
+    names = [n_ for n_ in names if n_]
     r.shuffle(body)
     text = '\n'.join(lines + body) + '\n'
-    preds = ['T'] + names[:2]
+    preds = (['Rec'] if has_rec else []) + ['T'] + names[:2]
   elif kind == 'typed':
     # typed dialect with several record types whose descriptions are equally long, so that
     # nothing but an explicit tie-break fixes the order of their CREATE TYPE statements
@@ -534,6 +559,24 @@ def gen_request(r, scratch, idx, kind=None):
   elif kind == 'imports':
     root = os.path.join(scratch, 'imp%d' % idx)
     text, preds = gen_import_tree(r, root)
+  elif kind == 'incant' and r.random() < 0.5:
+    # the experimental syntax in use: several user-defined infix operators mixed in one
+    # expression without parentheses (their relative precedence is part of the parse)
+    ops = r.sample(['---', '-+-', '-*-', '-/-', '-%-', '-^-', '\u25C7', '\u2295', '\u2297'], r.choice([2, 3, 3, 4]))
+    bodies = ['left * 10 + right', 'left + right', 'left * right', 'left - right', '2 * left + right',
+              'left * left + right']
+    lines = ['@Engine("sqlite");', '# %s' % INCANTATION]
+    for o in ops:
+      lines.append('`%s`(left:, right:) = %s;' % (o, r.choice(bodies)))
+    def expr(n):
+      e = r.choice(['x', '1', '2'])
+      for _ in range(n):
+        e = '%s %s %s' % (e, r.choice(ops), r.choice(['x', '2', '3', '5']))
+      return e
+    lines.append('T(%s) :- x in [1, 2, 3];' % expr(r.choice([2, 3])))
+    lines.append('U(%s, %s) :- x in [4, 7];' % (expr(2), expr(1)))
+    text = '\n'.join(lines) + '\n'
+    preds = ['T', 'U']
   elif kind == 'incant':
     p = gen.gen_nonrecursive(r, n_idb=2)
     where = r.choice(['comment', 'top'])
@@ -624,13 +667,31 @@ def gen_import_tree(r, root):
   return main, preds
 
 
-def build_pool(r, scratch, files, tier, procs=None):
+def build_pool(r, scratch, files, tier, procs=None, part=None):
   pool = []
   n_corpus = 6 if tier == 'quick' else 10
-  corpus = corpus_requests(r.sample(files, min(n_corpus + 3, len(files))))[:n_corpus]
-  for f, text, preds in corpus:
-    pool.append({'kind': 'corpus', 'file': f, 'main': text, 'root': None, 'cwd': core.REPO,
-                 'flags': None, 'preds': preds, 'bad': False})
+  if part is not None:
+    # the corpus is dealt out over the batches (rotated by the seed), so that one quick run
+    # compiles every program of the repository under two hash seeds at least once
+    b, nb, rot = part
+    mine = files[(b + rot) % nb::nb]
+    extra = [f for f in r.sample(files, min(3, len(files))) if f not in mine]
+    corpus = corpus_requests(mine + extra)
+    # all of them are compiled once per hash seed (history 0); the histories draw from the
+    # first n_corpus only, the others are marked sweep-only
+    for i, c in enumerate(corpus):
+      if i >= n_corpus:
+        c.append('sweep_only')
+  else:
+    corpus = corpus_requests(r.sample(files, min(n_corpus + 3, len(files))))[:n_corpus]
+  sweep_only = []
+  for f, text, preds, *mark in corpus:
+    q = {'kind': 'corpus', 'file': f, 'main': text, 'root': None, 'cwd': core.REPO,
+         'flags': None, 'preds': preds, 'bad': False}
+    if mark:
+      sweep_only.append(dict(q, preds=preds[-1:], sweep_only=True))
+    else:
+      pool.append(q)
   for i in range(8 if tier == 'quick' else 14):
     q = gen_request(r, scratch, i)
     pool.append(q)
@@ -644,7 +705,7 @@ def build_pool(r, scratch, files, tier, procs=None):
     for want in ('incant', 'needs_incant'):
       if want not in kinds:
         pool.append(gen_request(r, scratch, len(pool) + 100, kind=want))
-  return pool
+  return pool + sweep_only
 
 
 def make_dirs(scratch):
@@ -661,6 +722,7 @@ def make_dirs(scratch):
 
 
 def gen_history(r, pool, max_ops=None):
+  pool = [q for q in pool if not q.get('sweep_only')]     # a prefix: indexes stay valid
   n = r.randint(3, 25 if len(pool) > 16 else 14)
   if max_ops:
     n = min(n, r.randint(3, max_ops))
@@ -904,7 +966,7 @@ def shrink(case):
 
 def plan(tier):
   if tier == 'quick':
-    return {'batches': 16, 'timeout': 900, 'histories': 8, 'wall_budget_s': 300}
+    return {'batches': 20, 'timeout': 1500, 'histories': 5, 'wall_budget_s': 360, 'cpp_ops': 6, 'cpp_only_from': 16}
   return {'batches': 480, 'timeout': 2400, 'histories': 20, 'wall_budget_s': 1500, 'cpp_ops': 12}
 
 
@@ -922,10 +984,16 @@ def run_batch(seed, batch, tier, scratch):
   r = core.rng(seed, PROPERTY, batch, 'pool')
   procs = Procs(hashseed, ref_hashseed, local_is_pristine_zygote=False)
   try:
-    pool = build_pool(r, scratch, files, tier, procs)
+    part = (batch % 16, 16, seed % 16) if tier == 'quick' and batch < 16 else None
+    pool = build_pool(r, scratch, files, tier, procs, part)
     dirs = make_dirs(scratch)
     cache = cpp_cache_dir()
-    cpp_on = bool(cache) and os.path.isdir(cache) and (tier != 'quick' or batch % 2 == 0)
+    have_cpp = bool(cache) and os.path.isdir(cache)
+    # quick tier: batches 16.. run nothing but a history under the C++ parser (their own, small
+    # pool), so that the fork-heavy part does not sit on top of a full batch; thorough tier: every
+    # batch ends with one
+    cpp_only = pl.get('cpp_only_from') is not None and batch >= pl['cpp_only_from']
+    cpp_on = have_cpp and (cpp_only or pl.get('cpp_only_from') is None)
     if not cpp_on and not (cache and os.path.isdir(cache)):
       S.counters['cpp_parser_unavailable'] += 1
     oracle = Oracle(pool, procs, cache)
@@ -933,7 +1001,9 @@ def run_batch(seed, batch, tier, scratch):
     for pi, q in enumerate(pool):
       for p in q['preds'][:2]:
         sweep_ops.append(['compile', pi, p])
-    for i in range(pl['histories'] + 1 + (1 if cpp_on else 0)):
+    for i in ([pl['histories'] + 1] if cpp_only else range(pl['histories'] + 1 + (1 if cpp_on else 0))):
+      if cpp_only and not cpp_on:
+        break
       rr = core.rng(seed, PROPERTY, batch, 'hist', i)
       is_cpp = i == pl['histories'] + 1
       if i == 0:
@@ -1045,7 +1115,7 @@ def evidence_meta(tier):
                'CompileReusingRules(P, pred) (same parsed-rules object as an earlier operation), SqlAgain (second '
                'FormattedPredicateSql on the same LogicaProgram), ClockJump, ChangeDirectory (to one of three directories, two of which hold a file people.db), SetEnvironmentVariable; failing programs (ParsingException, '
                'RuleCompileException, FunctorError, TypeErrorCaughtException raised part-way through the pipeline) are '
-               'ordinary members of the program pool. In every second batch (thorough: every batch) one more history of 3-7 (12) operations runs in a process that parses with the C++ parser (LOGICA_PARSER=CPP, the shared library built once per check run from the tree under test): real processes only (the library keeps its own globals), references from pristine processes in the same parser mode under both hash seeds. Pool per batch: 6 (thorough 10) corpus files from integration_tests/** and '
+               'ordinary members of the program pool. In four dedicated batches of the quick tier (thorough: at the end of every batch) a history of 3-7 (12) operations runs in a process that parses with the C++ parser (LOGICA_PARSER=CPP, the shared library built once per check run from the tree under test): real processes only (the library keeps its own globals), references from pristine processes in the same parser mode under both hash seeds. Pool per batch: 6 (thorough 10) corpus files from integration_tests/** and '
                'type_inference/research/integration_tests with up to 3 predicates each, plus 8 (14) generated programs: '
                'non-recursive and recursive (all unfolding modes, iterative, DuckDB diamond / -1 depth) in several dialects, functor chains, import '
                'trees (chain, diamond, equal base names, alias, a file defining P and <Prefix>_P), flags, programs with the experimental-syntax incantation, '
